@@ -41,6 +41,45 @@ fn main() {
                 format!("E400={} E420={} parse_errors={}", count(&out, "UndefinedLabel"), count(&out, "DuplicateDeclarationLabel"),
                     count(&out, "UnexpectedToken") + count(&out, "UnexpectedEndOfFile"))
             }
+            // whole first-generation pipeline without the LLVM generator, in the order of alpha::Compiler::analyze_and_resolve:
+            // prints the sorted error codes and the lint codes
+            "alpha" => {
+                let src = String::from_utf8(bytes).unwrap();
+                let decls = alpha_front(&src);
+                let decls = penne::alpha::expander::expand_one("replay.pn", decls);
+                if let Err(errors) = penne::alpha::resolver::check_surface_level_errors(&decls) {
+                    return format!("errors={:?} lints=[] stage=surface", errors.sorted().codes()).replace(' ', "");
+                }
+                let mut decls = penne::alpha::scoper::analyze(decls);
+                decls.sort_by_key(|x| penne::alpha::scoper::get_container_depth(x, u32::MAX));
+                let offset = decls.partition_point(|x| penne::alpha::scoper::is_container(x));
+                let functions = decls.split_off(offset);
+                let containers = decls;
+                let mut typer = penne::alpha::typer::Typer::default();
+                let mut analyzer = penne::alpha::analyzer::Analyzer::default();
+                let mut linter = penne::alpha::linter::Linter::default();
+                let mut acc: Result<Vec<penne::alpha::resolved::Declaration>, penne::alpha::error::Errors> = Ok(Vec::new());
+                for (group, are_containers) in [(containers, true), (functions, false)] {
+                    for d in &group { typer.forward_declare_structure(d); }
+                    let group: Vec<_> = if are_containers { group } else {
+                        let g: Vec<_> = group.into_iter().map(|x| typer.declare(x)).collect();
+                        for d in &g { analyzer.declare(d); }
+                        g
+                    };
+                    for d in group {
+                        let d = if are_containers { typer.declare(d) } else { d };
+                        let d = typer.analyze(d);
+                        let d = analyzer.analyze(d);
+                        linter.lint(&d);
+                        let resolved = penne::alpha::resolver::resolve(d);
+                        acc = penne::alpha::resolver::accumulate(acc, resolved);
+                    }
+                }
+                let lints: Vec<penne::alpha::linter::Lint> = linter.into();
+                let lint_codes: Vec<u16> = lints.iter().map(|x| x.code()).collect();
+                let codes = match acc { Ok(_) => Vec::new(), Err(e) => e.sorted().codes() };
+                format!("errors={:?} lints={:?} stage=resolved", codes, lint_codes).replace(", ", ",")
+            }
             // C15: delta front end totality
             "delta" => {
                 let tokens = penne::delta::lexer::lex(&bytes, "replay.pn");
